@@ -127,7 +127,8 @@ def _queries(spec, table, cells, qs):
             if exp is None:
                 exp = F.BLANK
             m = f',{mode}' if mode is not None else ''
-            qs.append(Q(f'=VLOOKUP({vt},{tab},{col}{m})', exp, f'VLOOKUP:{"exact" if exact else "approx"}',
+            coltext = f'{col}' if (col + len(qs)) % 4 else f'{2 * col}/2'      # a computed column number arrives as a float
+            qs.append(Q(f'=VLOOKUP({vt},{tab},{coltext}{m})', exp, f'VLOOKUP:{"exact" if exact else "approx"}',
                         boundary(v) or col == width, tags + [f'mode:{mode}', 'col=width' if col == width else 'col<width']))
         elif fn == 'MATCH':
             mt = lk['mode']   # 0 | 1 | None (omitted: Excel's default is 1)
@@ -177,6 +178,8 @@ def _queries(spec, table, cells, qs):
                 if (r + c) % 2 == 0:
                     exp = table[r - 1][c - 1]
                     qs.append(Q(f'=INDEX({tab},{2 * r}/2,{3 * c}/3)', F.BLANK if exp is None else exp, 'INDEX:computed-position', True, ['fn:INDEX', 'computed-position']))
+        for r in range(1, h + 1):
+            qs.append(Q(f'=ADDRESS({2 * r}/2,{3 * (r + width)}/3)', f'${letters(r + width)}${r}', 'ADDRESS:computed', True, ['fn:ADDRESS', 'computed-position']))
         # a row outside the area is outside it whatever the column argument says (0 = the whole row)
         for r in (h + 1, h + 2):
             qs.append(Q(f'=INDEX({tab},{r},0)', REF, 'INDEX:beyond-with-zero', True, ['fn:INDEX', 'outside', 'zero-index']))
